@@ -129,6 +129,9 @@ func c10Battery(env *core.Env, cc *c10Coll) {
 	for _, e := range []string{"$this", "$this.take(1)", "iif(true, $this)", "$this.skip(0)", "$this.where(true)", "$this.first()", "$this.select($this)"} {
 		expectItems("select-identity", "%c.select("+e+")", orEmpty(cc.C))
 	}
+	if e1, e2 := c10Eval(env, "%c.exists($this)", cv), c10Eval(env, "%c.where($this).exists()", cv); !e1.IsPanic() && !e2.IsPanic() && !(e1.IsError() && e2.IsError()) && !fx.Same(e1, e2) {
+		env.Violatef("C10/exists-criterion/differs-from-where-exists", "%s: `%%c.exists($this)` = %s but `%%c.where($this).exists()` = %s", cc.Desc, trunc(e1.Short(), 80), trunc(e2.Short(), 80))
+	}
 	expectItems("select-identity", "%c.where(true)", orEmpty(cc.C))
 	expectItems("select-identity", "%c.where($this.exists())", orEmpty(cc.C))
 	expectItems("select-identity", "%c.where(false)", system.Collection{})
@@ -240,6 +243,13 @@ func c10Criteria(env *core.Env, cc *c10Coll, cv fhirpath.EvaluateOption, expectI
 		expectItems("where-exists", "%c.where("+fs+".exists())", orEmpty(with))
 		expectBool("exists-criterion", "%c.exists("+fs+".exists())", len(with) > 0)
 		expectBool("exists-criterion", "%c.exists("+fs+".exists()) = %c.where("+fs+".exists()).exists()", true)
+		// a criterion that yields the child itself (a non-Boolean singleton counts as true; more than one child is
+		// an error): exists(p) and where(p).exists() agree, whatever p yields
+		ea := c10Eval(env, "%c.exists("+fs+")", cv)
+		eb := c10Eval(env, "%c.where("+fs+").exists()", cv)
+		if !ea.IsPanic() && !eb.IsPanic() && !(ea.IsError() && eb.IsError()) && !fx.Same(ea, eb) {
+			env.Violatef("C10/exists-criterion/differs-from-where-exists", "%s: `%%c.exists(%s)` = %s but `%%c.where(%s).exists()` = %s", cc.Desc, fs, trunc(ea.Short(), 80), fs, trunc(eb.Short(), 80))
+		}
 		env.Cover("all")
 		expectBool("all", "%c.all("+fs+".exists())", all)
 		expectBool("all", "%c.all("+fs+".empty())", len(with) == 0)
